@@ -99,7 +99,30 @@ func StrLit(s string) Term {
 	return Term{b.String(), SString}
 }
 
+// selector simplification: (sel (ctor a b c)) => the selected argument, looking through named definitions
+var currentUniverse *Universe
+var selectorInfo = map[string]struct {
+	ctor string
+	idx  int
+}{
+	"s-base": {"mk-slice", 0}, "s-off": {"mk-slice", 1}, "s-len": {"mk-slice", 2}, "s-cap": {"mk-slice", 3},
+	"i-type": {"mk-iface", 0}, "i-val": {"mk-iface", 1},
+}
+
 func App(op, sort string, args ...Term) Term {
+	if len(args) == 1 {
+		if si, ok := selectorInfo[op]; ok {
+			r := args[0]
+			if currentUniverse != nil && !strings.HasPrefix(r.S, "(") {
+				r = currentUniverse.Resolve(r)
+			}
+			if strings.HasPrefix(r.S, "("+si.ctor+" ") {
+				if sx := sexpParse(r.S); sx != nil && len(sx.kids) > si.idx+1 {
+					return Term{sx.kids[si.idx+1].String(), sort}
+				}
+			}
+		}
+	}
 	var b strings.Builder
 	b.WriteByte('(')
 	b.WriteString(op)
@@ -717,12 +740,7 @@ func solveRace(workdir, name, query string, timeoutSec int, useSolvers []string)
 			default:
 				r.Status = "error"
 			}
-			if r.Status == "unsat" || r.Status == "sat" {
-				// keep sat files for replay; remove unsat ones
-				if r.Status == "unsat" {
-					os.Remove(file)
-				}
-			} else if r.Status != "error" {
+			if os.Getenv("GOVC_KEEP") == "" {
 				os.Remove(file)
 			}
 			ch <- r
@@ -884,4 +902,32 @@ func (u *Universe) mentionsQuantified(s string) bool {
 		}
 	}
 	return false
+}
+
+// Resolve looks through a named definition.
+func (u *Universe) Resolve(t Term) Term {
+	for i := 0; i < 8; i++ {
+		if strings.HasPrefix(t.S, "(") {
+			return t
+		}
+		u.mu.Lock()
+		d, ok := u.syms[t.S]
+		u.mu.Unlock()
+		if !ok || d.body == "" || strings.Contains(d.decl, "(define-fun "+d.name+" ((") {
+			return t
+		}
+		t = Term{d.body, d.sort}
+	}
+	return t
+}
+
+// SliceParts destructures a slice term when it is (or names) a mk-slice constructor application.
+func (u *Universe) SliceParts(t Term) (base, off, ln, cp Term) {
+	r := u.Resolve(t)
+	if strings.HasPrefix(r.S, "(mk-slice ") {
+		if sx := sexpParse(r.S); sx != nil && len(sx.kids) == 5 {
+			return Term{sx.kids[1].String(), SInt}, Term{sx.kids[2].String(), SInt}, Term{sx.kids[3].String(), SInt}, Term{sx.kids[4].String(), SInt}
+		}
+	}
+	return App("s-base", SInt, t), App("s-off", SInt, t), App("s-len", SInt, t), App("s-cap", SInt, t)
 }
